@@ -129,6 +129,9 @@ class WorkCopy:
         args = ["build", "-tags", "verif", "-o", out]
         if race:
             args.append("-race")
+        if os.environ.get("VERIF_COVERDIR") and not race:
+            # coverage survey (tools/coverage.sh): which statements of the repository do the generated cases reach
+            args += ["-cover", "-coverpkg=github.com/grailbio/bigslice/..."]
         args.append("./cmd/zz_bsharness")
         p = self.go(args, capture_output=True, text=True)
         if p.returncode != 0:
@@ -142,6 +145,8 @@ class WorkCopy:
         env.setdefault("GOMEMLIMIT", "6GiB")
         env.setdefault("VERIF_HANGDIR", os.path.join(OUT or VERIF, "replays", "hangs"))
         env.setdefault("VERIF_CASE_LIMIT", "240")
+        if os.environ.get("VERIF_COVERDIR"):
+            env["GOCOVERDIR"] = os.environ["VERIF_COVERDIR"]
         if extra_env:
             env.update(extra_env)
         p = subprocess.run(
